@@ -7,6 +7,7 @@ Obs == [e |-> last', t |-> now', bc |-> bcast', st |-> st']
 GenNext == /\ Len(hist) < HistLen
            /\ \/ Next
               \/ \E k \in Pick(Keys) : Query(k)
+              \/ \E k \in Pick(Keys) : Tamper(k)
            /\ hist' = Append(hist, Obs)
 GenSpec == GenInit /\ [][GenNext]_<<vars, hist>>
 Emit == Len(hist) = HistLen => PrintT("@@H " \o ToJson(hist))
